@@ -517,6 +517,9 @@ def read_tles_from_mmam_xml_files(paths):
     for fname in fnames:
         data = read_tle_from_mmam_xml_file(fname).split("\n")
         for two_lines in _group_iterable_to_chunks(2, data):
+            if not all(two_lines):
+                # no (complete) entry in this message
+                continue
             tl_stream = io.StringIO("\n".join(two_lines))
             tles.append(Tle("", tle_file=tl_stream))
     return tles
